@@ -231,6 +231,10 @@ def _check(mod, meta, prop, tier, seed, repo, jobs, replay, workdir, t0, quiet):
     print(head)
     interesting = {k: v for k, v in extra.items() if not k.startswith('_')}
     if not quiet:
+        slow = sorted((x for r in results for x in r.get('slow_cases', [])), reverse=True)[:8]
+        if slow:
+            print('  slowest cases (s, index, family): ' + json.dumps(slow))
+        print('  shard wall_s: ' + ' '.join(str(round(r.get('wall_s', 0))) for r in results))
         print('  counters: ' + ', '.join(f'{k}={v}' for k, v in interesting.items()))
     for line in out:
         print(line)
